@@ -21,7 +21,7 @@ def sweep(tier, seed):
                                          "input": [op, dtype, kind, alias, ux, uy], "observed": detail})
     for op in N.IOPS:
         for n in (1, 2, 3):
-            for kind in ("Vector", "Array", "number_float"):
+            for kind in ("Vector", "Array", "number_float", "OwnComponent"):
                 cases += 1
                 distinct.add((op, n, kind))
                 if kind == "number_float" and op in ("__iadd__", "__isub__"):
